@@ -14,6 +14,9 @@ __CPROVER_ensures(VERIF_SAME_D(self->_lon1, lon1) && VERIF_SAME_D(self->_azi1, a
                   (fabs(lat1) <= 90.0 ? self->_lat1 == lat1 : isnan(self->_lat1)))
 /*@ clause post.ellipsoid src=header props=C12 */
 __CPROVER_ensures(VERIF_SAME_D(self->_a, g->_a) && VERIF_SAME_D(self->_f, g->_f) && self->_exact == g->_exact)
-/*@ clause post.exact_delegate src=code props=C12,C01 */
+/*@ clause post.exact_delegate src=code props=C12,C01 only=enforce */
 /* with exact = true the embedded exact line carries the same capability word */
 __CPROVER_ensures(!g->_exact || self->_lineexact._caps == (caps | LATITUDE | AZIMUTH | LONG_UNROLL))
+/*@ clause post.invariant src=code props=C12 */
+/* what GenPosition / SetDistance / SetArc take as the line invariant (their pre.line clauses): copied from the solver object */
+__CPROVER_ensures(VERIF_SAME_D(self->_f1, g->_f1) && VERIF_SAME_D(self->tiny_, g->tiny_))
